@@ -99,28 +99,29 @@ type Prep struct {
 
 // Scenario describes one bubble run.
 type Scenario struct {
-	Name        string                `json:"name"`
-	Voters      []string              `json:"voters"`
-	NonVoters   []string              `json:"nonvoters,omitempty"` // bootstrapped members that... (unused: Bootstrap makes everyone a voter)
-	Extra       []string              `json:"extra,omitempty"`     // started with empty configuration, to be added later
-	Controlled  bool                  `json:"controlled"`
-	Auto        bool                  `json:"auto"`
-	SnapEvery   int                   `json:"snap_every,omitempty"`
-	SnapPad     int                   `json:"snap_pad,omitempty"`
-	Stimuli     []Stim                `json:"stimuli,omitempty"`
-	Heal        bool                  `json:"heal"`
-	HealET      int                   `json:"heal_et,omitempty"` // heal bound in election timeouts (default 60)
-	Random      *RandCfg              `json:"random,omitempty"`
-	Spec        []SpecStep            `json:"spec,omitempty"` // a TLC behaviour of Raft.tla to be replayed step by step
-	StopOnDrift bool                  `json:"stop_on_drift,omitempty"`
-	Family      string                `json:"family,omitempty"`
-	Attack      string                `json:"attack,omitempty"`       // weakening whose TLC counterexample this schedule is
-	Prep        map[string]*Prep      `json:"prep,omitempty"`         // nodes constructed over prepared storage instead of Bootstrap
-	Canon       map[string]*CanonSnap `json:"canon,omitempty"`        // snapshots "a sender had", for injected InstallSnapshot chunks
-	NoStart     []string              `json:"no_start,omitempty"`     // created but not started by the skeleton
-	NoBootstrap []string              `json:"no_bootstrap,omitempty"` // voters whose Bootstrap call is left to the program
-	LatencyUS   int                   `json:"latency_us,omitempty"`
-	JitterUS    int                   `json:"jitter_us,omitempty"`
+	Name         string                `json:"name"`
+	Voters       []string              `json:"voters"`
+	NonVoters    []string              `json:"nonvoters,omitempty"` // bootstrapped members that... (unused: Bootstrap makes everyone a voter)
+	Extra        []string              `json:"extra,omitempty"`     // started with empty configuration, to be added later
+	Controlled   bool                  `json:"controlled"`
+	Auto         bool                  `json:"auto"`
+	SnapEvery    int                   `json:"snap_every,omitempty"`
+	SnapPad      int                   `json:"snap_pad,omitempty"`
+	Stimuli      []Stim                `json:"stimuli,omitempty"`
+	Heal         bool                  `json:"heal"`
+	HealET       int                   `json:"heal_et,omitempty"` // heal bound in election timeouts (default 60)
+	Random       *RandCfg              `json:"random,omitempty"`
+	Spec         []SpecStep            `json:"spec,omitempty"` // a TLC behaviour of Raft.tla to be replayed step by step
+	StopOnDrift  bool                  `json:"stop_on_drift,omitempty"`
+	Family       string                `json:"family,omitempty"`
+	Attack       string                `json:"attack,omitempty"`         // weakening whose TLC counterexample this schedule is
+	Prep         map[string]*Prep      `json:"prep,omitempty"`           // nodes constructed over prepared storage instead of Bootstrap
+	Canon        map[string]*CanonSnap `json:"canon,omitempty"`          // snapshots "a sender had", for injected InstallSnapshot chunks
+	HealKeepDown []string              `json:"heal_keep_down,omitempty"` // members that stay down in the fault-free period (a majority still runs)
+	NoStart      []string              `json:"no_start,omitempty"`       // created but not started by the skeleton
+	NoBootstrap  []string              `json:"no_bootstrap,omitempty"`   // voters whose Bootstrap call is left to the program
+	LatencyUS    int                   `json:"latency_us,omitempty"`
+	JitterUS     int                   `json:"jitter_us,omitempty"`
 }
 
 type Runner struct {
@@ -572,7 +573,7 @@ func (r *Runner) heal() {
 	c.net.SetAuto(true)
 	c.SetControlled(false)
 	for _, id := range ids {
-		if n := c.node(id); !n.running {
+		if n := c.node(id); !n.running && !contains(sc.HealKeepDown, id) {
 			c.Restart(id)
 		}
 	}
